@@ -12,7 +12,7 @@ only; no theorem depends on it.
 namespace GoPlugin.Oracle.C09
 open GoPlugin Wire MuxBroker
 
-inductive Op | dial (id : Nat) | accept (id : Nat)
+inductive Op | dial (id : Nat) | accept (id : Nat) | abort
 
 structure Sim where
   st : State
@@ -114,6 +114,7 @@ def parseOp (s : String) : Option (Nat × Op) :=
   match s.splitOn ":" with
   | [t, "d", id] => do some ((← t.toNat?), .dial (← id.toNat?))
   | [t, "a", id] => do some ((← t.toNat?), .accept (← id.toNat?))
+  | [t, "x"] => do some ((← t.toNat?), .abort)
   | _ => none
 
 /-- outcome of each op, in order: dial i ↦ i-th stream, accept j ↦ j-th Accept goroutine
@@ -123,8 +124,12 @@ def outcomes (sim : Sim) (ops : List (Nat × Op)) (registered : List Bool) : Lis
     match ops, reg with
     | [], _ => []
     | (_, op) :: rest, r :: rs =>
+      match op with
+      | .abort => "ok" :: go rest rs di ai     -- the opener's open+close always returns
+      | _ =>
       if !r then "hang" :: go rest rs di ai else
       match op with
+      | .abort => "ok" :: go rest rs di ai
       | .dial _ =>
         let o := match sim.st.streams di with
           | some x => match x.st with
@@ -153,6 +158,7 @@ def applyOpsReg (P : Params) (delay : Nat) (sim : Sim) : List (Nat × Op) → Si
     let e := match op with
       | .dial id => Event.dial id
       | .accept id => Event.accept id
+      | .abort => Event.abort
     match tryStep P sim1 e with
     | some x =>
       let (s', regs) := applyOpsReg P delay (quiesce P delay 1000 x) rest
